@@ -25,7 +25,7 @@ class Unspecified(Exception):
 class Case:
     """guard: z3 Bool over the pre-state; outcome: ('return', SVal or checker) | ('raise', exception class name)"""
 
-    def __init__(self, name, guard, kind, value=None, exc=None, props=(), effects=None, check=None, finding=None, check_exc=None):
+    def __init__(self, name, guard, kind, value=None, exc=None, props=(), effects=None, check=None, finding=None, check_exc=None, facts=None):
         self.name = name
         self.guard = to_bool(guard)
         self.kind = kind
@@ -36,14 +36,18 @@ class Case:
         self.check = check  # callable(I, outcome_value) -> z3 Bool : extra/alternative result predicate
         self.finding = finding
         self.check_exc = check_exc  # callable(I, excref) -> z3 Bool on the raised exception object
+        # callable(I) -> [z3 Bool]: definitional facts of the clause's vocabulary (evaluated after the
+        # body ran, so they may be ground instances over terms the path built); hypotheses of this
+        # clause's obligation only
+        self.facts = facts
 
 
-def ret(name, guard, value=None, props=(), effects=None, check=None):
-    return Case(name, guard, "return", value=value, props=props, effects=effects, check=check)
+def ret(name, guard, value=None, props=(), effects=None, check=None, facts=None):
+    return Case(name, guard, "return", value=value, props=props, effects=effects, check=check, facts=facts)
 
 
-def rai(name, guard, exc, props=(), effects=None, check_exc=None):
-    return Case(name, guard, "raise", exc=exc, props=props, effects=effects, check_exc=check_exc)
+def rai(name, guard, exc, props=(), effects=None, check_exc=None, facts=None):
+    return Case(name, guard, "raise", exc=exc, props=props, effects=effects, check_exc=check_exc, facts=facts)
 
 
 def unspecified(name, guard):
@@ -233,7 +237,7 @@ class VerifyResult:
         }
 
 
-def verify(spec, tier="quick", summaries=None, only_props=None, part=None):
+def verify(spec, tier="quick", summaries=None, only_props=None, part=None, vfilter=None):
     """Check the real body of spec.fq against spec on every path of every variant."""
     repo = get_repo()
     res = VerifyResult(spec)
@@ -246,6 +250,11 @@ def verify(spec, tier="quick", summaries=None, only_props=None, part=None):
         summ.update(summaries)
     short = (spec.key or spec.fq).split(":")[1]
     allv = list(spec.variants(tier))
+    if vfilter:
+        import fnmatch as _fn
+
+        vn = lambda v: "" if v is None else (v if isinstance(v, str) else ",".join(str(x) for x in v))
+        allv = [v for v in allv if any(_fn.fnmatchcase(vn(v), pat) for pat in vfilter)]
     if part is not None:
         allv = allv[part[0] :: part[1]]
     for variant in allv:
@@ -325,6 +334,10 @@ def verify(spec, tier="quick", summaries=None, only_props=None, part=None):
                         goal = z3.Implies(c.guard, z3.And(*eqs) if eqs else z3.BoolVal(True))
                         if not ob.detail:
                             ob.detail = "body returns %s" % short_repr(outcome[1])
+                if c.facts is not None:
+                    hyp = [to_bool(h) for h in c.facts(I)]
+                    if hyp:
+                        goal = z3.Implies(z3.And(*hyp), to_bool(goal))
                 discharge(P, goal, ob)
                 obs.append(ob)
             # frame
